@@ -12,7 +12,7 @@ TECHNIQUE = 'runtime monitoring with fault injection at the boundaries: adversar
 RULE = ('every distinct abstract state reached by the C01 event exploration (operator not having stopped the peer), and the end state of '
         'long fault-biased random walks, is continued with a cooperative peer (accepts at once, valid OPEN, KEEPALIVE every H/3): '
         'Established must be reached within idle_hold + max(connect_retry,30) + 1 s of virtual time, hold for max(3H,250) s more, '
-        'and the OPEN of the recovered session must equal the OPEN of a fresh agent with the same configuration; '
+        'and the OPEN of the recovered session must equal the OPEN of a fresh agent with the same configuration; then a second fault (peer close / reset / a bad marker that makes the agent close) and the same demands on the session after it; searches from boot and from 7 prefix sessions, with close completion at the same instant and as a late separate event; '
         'distinct = distinct abstract world fingerprints continued; liveness restated as bounded progress')
 ASSUMPTIONS = ['simulated Twisted reactor (verif/shims), virtual time', 'bounded-progress restatement: "stays up" observed for max(3H,250) s',
                'cooperative peer continues a connection already in use with the hold time negotiated on it']
